@@ -1,16 +1,21 @@
 (* correspondence glue for C18: what the shards evaluate.
    CProxy: capability set + handler behaviour -> (status, size) passed to the AccessHandler callback
            and the calls the fake underlying ResponseWriter recorded.
+   CNest:  capability set + number of stacked AccessHandlers + the calls in execution order, each with the number
+           of proxies it passes through -> the (status, size) every AccessHandler reported (outermost first)
+           and the calls the fake underlying ResponseWriter recorded.
    CIso:   base logger's context bytes (None: nil context), per-request chunk lists, a schedule ->
            every request's final context bytes. *)
-From Verif Require Import Base.Prelude Misc.Hlog Misc.HlogHeap.
+From Verif Require Import Base.Prelude Misc.Hlog Misc.HlogNest Misc.HlogHeap.
 
 Inductive c18_case :=
 | CProxy (c : caps) (ops : list op)
+| CNest (c : caps) (levels : nat) (xs : list (nat * op))
 | CIso (base : option (list N)) (work : list (list (list N))) (sched : list nat).
 
 Inductive c18_obs :=
 | OProxy (status bytes : Z) (calls : list ucall)
+| ONest (reports : list (Z * Z)) (calls : list ucall)
 | OIso (contexts : list (option (list N))).
 
 Definition iso_heap (base : option (list N)) : heap * option slice :=
@@ -22,6 +27,7 @@ Definition iso_heap (base : option (list N)) : heap * option slice :=
 Definition c18_run (c : c18_case) : c18_obs :=
   match c with
   | CProxy cp ops => let '(st, by_, calls) := report cp ops in OProxy st by_ calls
+  | CNest cp levels xs => let '(reps, calls) := nest_report cp levels xs in ONest reps calls
   | CIso base work sched =>
       let '(h0, b) := iso_heap base in
       let s := run_sched true (fun c n => 2 * c) b (init_state h0 work) sched in
@@ -47,6 +53,7 @@ Definition optbytes_eqb (a b : option (list N)) : bool :=
 Definition c18_eqb (a b : c18_obs) : bool :=
   match a, b with
   | OProxy s n c, OProxy s' n' c' => Z.eqb s s' && Z.eqb n n' && list_eqb ucall_eqb c c'
+  | ONest r c, ONest r' c' => list_eqb (fun a b => Z.eqb (fst a) (fst b) && Z.eqb (snd a) (snd b)) r r' && list_eqb ucall_eqb c c'
   | OIso x, OIso y => list_eqb optbytes_eqb x y
   | _, _ => false
   end.
